@@ -350,7 +350,8 @@ SPEC = {
         "murmur3_spec is Cassandra's MurmurHash.hash3_x64_128 (seed 0, first long) transcribed from the Java source; "
         "cross-checked in Coq on the four literal vectors of partitioner.rs, three published MurmurHash3_x64_128 "
         "vectors (both halves), four JVM-generated vectors with signed bytes in both tail halves, and at check time "
-        "against the independent reference in checks/c03.py",
+        "against the independent reference in checks/c03.py, whose formulation (unsigned, block-walking) is Model/MurmurRef.v, "
+        "proved equal to murmur3_spec for every byte string (C03_reference)",
         "cdc_token_spec is the rule documented in partitioner.rs itself (no independent source offline); only its "
         "16-byte case (C03_cdc_stream_id) is claimed against the server; spec_serialized_key is from the property text",
         "hooks scylla::statement::verif_prepared (PreparedStatement from a deserialized PREPARED response; pass-throughs "
